@@ -529,3 +529,175 @@ V('inval-benign-clear', ['C01', 'C06'], 'benign',
         self._ite_table.clear()
         m = len(self)""")],
   None, 'clear() instead of a new dict')
+
+# ------------------------------------------------- R-NORM / R-PAIR / R-INVMAP
+V('norm-no-factor', ['C01', 'C02'], 'breaking',
+  [(B, """        u = self._pred.get(t)
+        if u is not None:
+            return r * u""", """        u = self._pred.get(t)
+        if u is not None:
+            return u""")],
+  'R-NORM/return/dd.bdd.BDD.find_or_add', 'existing node returned unsigned')
+V('norm-low-normalised', ['C01', 'C02'], 'breaking',
+  [(B, """        if w < 0:
+            v, w = -v, -w
+            r = -1""", """        if v < 0:
+            v, w = -v, -w
+            r = -1""")],
+  'R-NORM/', 'normalises on the low edge')
+V('norm-half-negation', ['C01', 'C02'], 'breaking',
+  [(B, """        if w < 0:
+            v, w = -v, -w
+            r = -1""", """        if w < 0:
+            v, w = v, -w
+            r = -1""")],
+  'R-NORM/children', 'only the high edge negated')
+V('norm-no-elimination', ['C02'], 'breaking',
+  [(B, """        # eliminate
+        if v == w:
+            return r * v
+        # already exists ?""", """        # already exists ?""")],
+  'R-NORM/elimination', 'redundant nodes created')
+V('norm-key-order', ['C02'], 'breaking',
+  [(B, "        t = (i, v, w)\n        u = self._pred.get(t)", "        t = (i, w, v)\n        u = self._pred.get(t)")],
+  'R-NORM/key', 'key built as (level, high, low)')
+V('norm-benign-order-of-checks', ['C02'], 'benign',
+  [(B, """        if abs(v) not in self._succ:
+            raise ValueError(
+                f'argument: {v = } is not '
+                'a reference to an existing BDD node')
+        if abs(w) not in self._succ:
+            raise ValueError(
+                f'argument: {w = } is not '
+                'a reference to an existing BDD node')""", """        if abs(w) not in self._succ:
+            raise ValueError(
+                f'argument: {w = } is not '
+                'a reference to an existing BDD node')
+        if abs(v) not in self._succ:
+            raise ValueError(
+                f'argument: {v = } is not '
+                'a reference to an existing BDD node')""")],
+  None, 'validation order exchanged')
+V('pair-no-incref-low', ['C02', 'C06'], 'breaking',
+  [(B, """        # increment reference counters
+        self.incref(v)
+        self.incref(w)
+        return r * u""", """        # increment reference counters
+        self.incref(w)
+        return r * u""")],
+  'R-PAIR/edge-without-ref/dd.bdd.BDD.find_or_add', 'low child not counted')
+V('pair-decref-unguarded', 'C06', 'breaking',
+  [(B, """                UserWarning)
+            return
+        self._ref[abs(u)] -= 1""", """                UserWarning)
+        self._ref[abs(u)] -= 1""")],
+  'R-PAIR/counter/dd.bdd.BDD.decref', 'decrement after the warning')
+V('pair-collect-no-decref', 'C06', 'breaking',
+  [(B, """            # decrement reference counters
+            self.decref(v)
+            self.decref(w)
+            # unused ?""", """            # decrement reference counters
+            self.decref(v)
+            # unused ?""")],
+  'R-PAIR/collect/dd.bdd.BDD.collect_garbage', 'high child not released')
+V('pair-collect-no-enqueue', 'C06', 'breaking',
+  [(B, """            if not self._ref[w] and w != 1:
+                unused.add(w)
+        self._ite_table = dict()""", """        self._ite_table = dict()""")],
+  'R-PAIR/collect/dd.bdd.BDD.collect_garbage', 'cascade stops at high child')
+V('pair-collect-seed', 'C06', 'breaking',
+  [(B, """        unused = filter(
+            is_unused, roots)
+        unused = set(map(
+            abs, unused))""", """        unused = set(map(
+            abs, roots))""")],
+  'R-PAIR/collect/dd.bdd.BDD.collect_garbage/seed', 'referenced roots deleted')
+V('pair-swap-no-incref', ['C06', 'C07'], 'breaking',
+  [(B, """            self._pred[r] = u
+            self.incref(p)
+            self.incref(q)""", """            self._pred[r] = u
+            self.incref(p)""")],
+  'R-PAIR/swap-acquire/dd.bdd.BDD.swap', 'new high child not counted')
+V('pair-swap-no-decref', ['C06', 'C07'], 'breaking',
+  [(B, """            self.decref(v)
+            self.decref(w)
+            # possibly unused
+            garbage.add(abs(v))""", """            self.decref(v)
+            # possibly unused
+            garbage.add(abs(v))""")],
+  'R-PAIR/swap-release/dd.bdd.BDD.swap', 'old high child stays counted')
+V('pair-swap-garbage', ['C06', 'C07'], 'breaking',
+  [(B, """            garbage.add(abs(v))
+            garbage.add(w)""", """            garbage.add(abs(v))""")],
+  'R-PAIR/swap-garbage/dd.bdd.BDD.swap', 'old high child never collected')
+V('invmap-swap-no-pred', ['C02', 'C07'], 'breaking',
+  [(B, """            r = (y, v, w)
+            self._succ[u] = r
+            if r in self._pred:
+                raise AssertionError(r)
+            self._pred[r] = u
+            done.add(u)""", """            r = (y, v, w)
+            self._succ[u] = r
+            if r in self._pred:
+                raise AssertionError(r)
+            done.add(u)""")],
+  'R-INVMAP/unpaired/dd.bdd.BDD.swap', 'unique table not updated in loop 2')
+V('invmap-swap-done', ['C02', 'C07'], 'breaking',
+  [(B, """            self._pred[r] = u
+            done.add(u)""", """            self._pred[r] = u""")],
+  'R-INVMAP/done-set/dd.bdd.BDD.swap', 'independent nodes rewritten twice')
+V('invmap-swap-vars', ['C02', 'C07'], 'breaking',
+  [(B, """        self._level_to_var[y] = vx
+        self._level_to_var[x] = vy""", """        self._level_to_var[y] = vy
+        self._level_to_var[x] = vx""")],
+  'R-INVMAP/order-maps/dd.bdd.BDD.swap', 'inverse map not swapped')
+V('invmap-undeclare-pred', ['C02', 'C14'], 'breaking',
+  [(B, """        self._pred = {
+            v: k
+            for k, v in
+                self._succ.items()}
+        # clear cache""", """        # clear cache""")],
+  'R-INVMAP/rebuild/dd.bdd.BDD.undeclare_vars', 'unique table keeps old levels')
+V('invmap-addvar-terminal', ['C14'], 'breaking',
+  [(B, """        self._level_to_var[level] = var
+        # move the leaf node to
+        # the new bottom level
+        self._init_terminal(len(self.vars))
+        return level""", """        self._level_to_var[level] = var
+        return level""")],
+  'R-INVMAP/terminal/dd.bdd.BDD.add_var', 'terminal stays above the new variable')
+V('invmap-terminal-stale', ['C02', 'C14'], 'breaking',
+  [(B, """        told = self._succ.setdefault(u, t)
+        self._pred.pop(told, None)
+        self._succ[u] = t""", """        told = self._succ.setdefault(u, t)
+        self._succ[u] = t""")],
+  'R-INVMAP/stale-entry/dd.bdd.BDD._init_terminal', 'old terminal key stays')
+V('writers-foreign', ['C02', 'C06'], 'breaking',
+  [(A, """    def collect_garbage(
+            self
+            ) -> None:
+        \"\"\"Recursively remove nodes with zero reference count.\"\"\"
+        self._bdd.collect_garbage()""", """    def collect_garbage(
+            self
+            ) -> None:
+        \"\"\"Recursively remove nodes with zero reference count.\"\"\"
+        self._bdd.collect_garbage()
+        self._bdd._ref = {
+            u: k for u, k in self._bdd._ref.items()
+            if u in self._bdd._succ}""")],
+  'R-WRITERS/foreign-writer/dd.autoref.BDD.collect_garbage', 'autoref writes _ref')
+V('mdd-norm', 'C15', 'breaking',
+  [('dd/mdd.py', """        u = self._pred.get(t)
+        if u is not None:
+            return r * u
+        u = self._allocate()""", """        u = self._pred.get(t)
+        if u is not None:
+            return u
+        u = self._allocate()""")],
+  'R-NORM/return/dd.mdd.MDD.find_or_add', 'MDD node returned unsigned')
+V('mdd-pair', 'C15', 'breaking',
+  [('dd/mdd.py', """        # reference counting
+        for v in nodes:
+            self.incref(v)
+        return r * u""", """        return r * u""")],
+  'R-PAIR/edge-without-ref/dd.mdd.MDD.find_or_add', 'MDD children not counted')
